@@ -20,6 +20,50 @@ def run(rep, prog, tier):
     r2(rep, prog)
     r34(rep, prog)
     r5(rep, prog, "C04-R5")
+    r6(rep, prog)
+
+
+def r6(rep, prog):
+    """a finished merge is applied only if ALL of its source segments are still registered"""
+    import re
+    from ..rules import dominating_guards
+    R = "C04-R6"
+    rep.rule(R, "a merge result replaces its sources only while all of them are still there: SegmentManager::end_merge asks SegmentRegisters::segments_status(source ids) and discards the merged segment when the answer is None. Two merges may share a source segment (IndexWriter::merge does not look at what is already being merged; a policy merge can overlap an explicit one): the first to end removes the shared segment, the second must then be refused — so every `Some(status)` answer of segments_status is decided by a test that ALL the given ids are in one register (SegmentRegister::contains_all, or Iterator::all over the ids without any filtering adaptor). A lookup that skips ids it does not find applies both merges: the shared segment's documents are in the index twice")
+    fid = I + "segment_manager::SegmentRegisters::segments_status"
+    b = get_body(rep, prog, R, fid)
+    if b is None:
+        return
+    FILTER = re.compile(r"Iterator::(filter|filter_map|flat_map|take|skip|take_while|skip_while|step_by)$")
+    somes = []
+    for bi in b.normal_blocks():
+        for st in b.stmts(bi):
+            if st.get("r") == "agg" and st.get("adt") == "core::option::Option" and st.get("variant") == "Some" and is_bare(st["d"]) and st["d"] == 0:
+                somes.append(bi)
+    if not rep.check(bool(somes), R, "segments_status has Some(..) answers", "%d" % len(somes), "cannot establish: no `Some(status)` answer found in SegmentRegisters::segments_status", site=b.span):
+        return
+    for bi in somes:
+        ok = False
+        why = "no dominating all-ids test"
+        for sb, through, gl in dominating_guards(b, bi):
+            tr = trace_back(b, gl)
+            if not tr or tr[-1][0] != "call":
+                continue
+            callee = tr[-1][1]
+            t = b.term(tr[-1][2])
+            if callee.endswith("SegmentRegister::contains_all") and set(through) <= {"else", "1"}:
+                lv = provenance(b, op_local(t["args"][1])) if len(t["args"]) > 1 and op_local(t["args"][1]) is not None else set()
+                if ("param", 2) in lv:
+                    ok = True
+            elif re.search(r"Iterator>?::all$", callee) and set(through) <= {"else", "1"}:
+                lv = provenance(b, op_local(t["args"][0])) if op_local(t["args"][0]) is not None else set()
+                calls = {x[1] for x in lv if x[0] == "call"}
+                if any(FILTER.search(c) for c in calls):
+                    why = "the ids go through %s before the all() test" % sorted(short(c) for c in calls if FILTER.search(c))
+                elif ("param", 2) in provenance(b, op_local(t["args"][0]), extra_transparent=tuple(calls)):
+                    ok = True
+        rep.check(ok, R, "Some(status) at bb%d is decided by a test over all the given ids" % bi, "contains_all(segment_ids) / all()",
+                  "SegmentRegisters::segments_status can answer Some(status) without having tested that every one of the given segment ids is in that register (%s): SegmentManager::end_merge then applies a merge whose "
+                  "source segments are partly gone — two overlapping merges (merge(&[A,B]) and merge(&[B,C]) in flight together) are both published and the documents of B are in the index twice" % why, site=site(b, bi))
 
 
 def r5(rep, prog, R):
